@@ -1076,8 +1076,27 @@ func (c *Ctx) expandPredicate(e ast.Expr) ast.Expr {
 		return e
 	}
 	cu := c.m.calleeUnit(call)
-	if cu == nil || cu.Lit != nil || cu.Decl == nil || cu.Body == nil || cu.Decl.Recv != nil {
+	if cu == nil || cu.Lit != nil || cu.Decl == nil || cu.Body == nil {
 		return e
+	}
+	if cu.Decl.Recv != nil {
+		// a method: only on a receiver that is a plain variable or field path (ref.isLeaf(),
+		// t.root.isEmpty()), which can stand in the returned expression as it is
+		sel, ok := ast.Unparen(call.Fun).(*ast.SelectorExpr)
+		if !ok {
+			return e
+		}
+		plain := true
+		ast.Inspect(sel.X, func(n ast.Node) bool {
+			switch n.(type) {
+			case *ast.CallExpr, *ast.FuncLit:
+				plain = false
+			}
+			return plain
+		})
+		if !plain {
+			return e
+		}
 	}
 	ret := simpleReturn(cu)
 	if ret == nil {
